@@ -164,13 +164,21 @@ def PowerLevels.notificationLevel (p : PowerLevels) (n : Bytes) : Int := (mapGet
 def mapMerge (base : List (Bytes × Int)) (kvs : List (Bytes × Int)) : List (Bytes × Int) :=
   dedupLast (base ++ kvs)
 
-/-- `parseIntegerPowerLevels`: plain json.Unmarshal into PowerLevelContent (ints must be integer literals). -/
+/-- a level as `parseIntegerPowerLevels` reads it: json.Unmarshal into an `int64` field (only an integer literal in
+    range is stored) behind the null check of 33ac4f7 (encoding/json would skip `null` silently) -/
+def decIntLevel (d : Int) (v : Option JVal) : Dec Int :=
+  match v with
+  | some .null => ⟨d, true⟩
+  | _ => decInt64 d v
+
+/-- `parseIntegerPowerLevels`: plain json.Unmarshal into PowerLevelContent (ints must be integer literals); a `null` in
+    place of a map of levels, or of one of its values, is refused first (33ac4f7). -/
 def decodeIntMap (base : List (Bytes × Int)) (v : Option JVal) : Dec (List (Bytes × Int)) :=
   match v with
   | none => ⟨base, false⟩
-  | some .null => ⟨[], false⟩
+  | some .null => ⟨base, true⟩
   | some (.obj kvs) =>
-    let ds := kvs.map (fun kv => (kv.1, decInt64 0 (some kv.2)))
+    let ds := kvs.map (fun kv => (kv.1, decIntLevel 0 (some kv.2)))
     ⟨mapMerge base (ds.map (fun d => (d.1, d.2.val))), ds.any (fun d => d.2.err)⟩
   | some _ => ⟨base, true⟩
 
@@ -179,7 +187,7 @@ def parseIntegerPowerLevels (c : Option JVal) (d : PowerLevels) : Option PowerLe
   | none => none
   | some .null => some d
   | some (.obj kvs) =>
-    let f (name : Bytes) (dflt : Int) := decInt64 dflt (lookupField kvs name)
+    let f (name : Bytes) (dflt : Int) := decIntLevel dflt (lookupField kvs name)
     let ban := f b!"ban" d.ban; let invite := f b!"invite" d.invite; let kick := f b!"kick" d.kick
     let redact := f b!"redact" d.redact; let ud := f b!"users_default" d.usersDefault
     let ed := f b!"events_default" d.eventsDefault; let sd := f b!"state_default" d.stateDefault
@@ -388,6 +396,8 @@ structure Ctx where
   privilegedCreators : Bool := false
   plEvent : Option Event := none
   pl : PowerLevels := {}
+  /-- `powerLevelsErr`: the error of loading a power-levels event the provider has (d1e42dd) -/
+  plErr : Option Verdict := none
   jrEvent : Option Event := none
   joinRule : Bytes := []
   deriving Repr, Inhabited
@@ -412,10 +422,34 @@ def createContentOf (ce : Option Event) : R CreateContent :=
       | .error _ => notAllowed
       | .ok u => .ok { c with roomID := ce.roomID, eventID := ce.eventID, senderDomain := u.domain }
 
+/-! Go compares the cached event with the provider's by POINTER (`a.createEvent != e`).  The model compares the events
+    structurally — ID, version and the whole JSON value.  That is observationally the same: two distinct objects with equal
+    content are re-parsed by the code and kept by the model, and parsing is a function of the content.  (Comparing by event
+    ID alone would NOT be the same: the trusted constructors take the ID as given, so two different events can carry one
+    ID — seeded change C09-r4m1.) -/
+mutual
+def jvBeq : JVal → JVal → Bool
+  | .null, .null => true
+  | .bool a, .bool b => a == b
+  | .num a, .num b => a == b
+  | .str a, .str b => a == b
+  | .arr a, .arr b => jvsBeq a b
+  | .obj a, .obj b => jkvsBeq a b
+  | _, _ => false
+def jvsBeq : List JVal → List JVal → Bool
+  | [], [] => true
+  | x :: xs, y :: ys => jvBeq x y && jvsBeq xs ys
+  | _, _ => false
+def jkvsBeq : List (Bytes × JVal) → List (Bytes × JVal) → Bool
+  | [], [] => true
+  | (k, x) :: xs, (l, y) :: ys => k == l && jvBeq x y && jkvsBeq xs ys
+  | _, _ => false
+end
+
 def sameEvent (a b : Option Event) : Bool :=
   match a, b with
   | none, none => true
-  | some x, some y => x.eventID == y.eventID && x.ver == y.ver
+  | some x, some y => x.eventID == y.eventID && x.ver == y.ver && jkvsBeq x.obj y.obj
   | _, _ => false
 
 /-- What the create part of the cache holds after a refresh from create event `e` (a function of the event
@@ -442,6 +476,17 @@ def plInfo (e : Option Event) (creator : Bytes) : R (Option Event × PowerLevels
     | .error (.unmodelled w) => .error (.unmodelled w)
     | .error _ => .ok (none, {})
 
+/-- `powerLevelsErr` after a refresh: set when the provider HAS a power-levels event that cannot be loaded (an
+    unmodelled one makes `update` itself answer `unmodelled`) -/
+def plErrOf (e : Option Event) : Option Verdict :=
+  match e with
+  | none => none
+  | some ev =>
+    match powerLevelsFromEvent ev with
+    | .ok _ => none
+    | .error (.unmodelled _) => none
+    | .error v => some v
+
 /-- the join-rule part of the cache after a refresh -/
 def jrInfo (e : Option Event) : Option Event × Bytes :=
   match e with
@@ -454,7 +499,7 @@ def jrInfo (e : Option Event) : Option Event × Bytes :=
 def Ctx.switchProvider (a0 : Ctx) (p : Provider) : Ctx :=
   if !a0.hasProvider || p.ident != a0.provider.ident then
     { provider := p, hasProvider := true, createEvent := none, create := {}, creators := [], privilegedCreators := false,
-      plEvent := none, pl := {}, jrEvent := none, joinRule := [] }
+      plEvent := none, pl := {}, plErr := none, jrEvent := none, joinRule := [] }
   else { a0 with provider := p }
 
 def Ctx.refreshCreate (a : Ctx) (p : Provider) : R Ctx :=
@@ -473,7 +518,7 @@ def senderOfOpt (o : Option Event) : Bytes :=
 def Ctx.refreshPL (a : Ctx) (p : Provider) : R Ctx :=
   if a.plEvent.isNone || !sameEvent a.plEvent p.powerLevels then
     match plInfo p.powerLevels (senderOfOpt a.createEvent) with
-    | .ok (pe, pl) => .ok { a with plEvent := pe, pl := pl }
+    | .ok (pe, pl) => .ok { a with plEvent := pe, pl := pl, plErr := plErrOf p.powerLevels }
     | .error v => .error v
   else .ok a
 
@@ -632,9 +677,8 @@ def checkUserLevels (senderLevel : Int) (sender : Bytes) (old new : PowerLevels)
 
 def notificationKeys (old new : PowerLevels) : List Bytes := new.notifications.map (·.1) ++ old.notifications.map (·.1)
 
-/-- `checkPowerLevelEventV2` (notification levels) -/
-def checkNotificationLevels (sender : Bytes) (old new : PowerLevels) : Bool :=
-  let senderLevel := old.userLevel sender
+/-- `checkNotificationLevels` (548eba1): the notification levels, for a sender of the given level -/
+def checkNotificationLevels (senderLevel : Int) (old new : PowerLevels) : Bool :=
   (notificationKeys old new).all (fun k =>
     let o := old.notificationLevel k
     let n := new.notificationLevel k
@@ -647,17 +691,20 @@ def Ctx.checkPowerLevelEvent (a : Ctx) (e : Event) (old new : PowerLevels) : R U
   | some row =>
     if row.checkPowerLevelEvent == "checkPowerLevelEventV1" then .ok ()
     else if row.checkPowerLevelEvent == "checkPowerLevelEventV2" then
-      if checkNotificationLevels e.sender old new then .ok () else notAllowed
+      -- the sender's level is read from the old content (this version has no privileged creators)
+      if checkNotificationLevels (old.userLevel e.sender) old new then .ok () else notAllowed
     else if row.checkPowerLevelEvent == "checkPowerLevelEventV3" then
-      if !checkNotificationLevels e.sender old new then notAllowed
-      else match a.createEvent with
-        | none => .error (.panic "eventauth.go:checkPowerLevelEventV3 createEvent.Content() on nil create event")
-        | some ce =>
-          match decodeCreateContent ce.content with
-          | none => notAllowed
-          | some cc =>
-            let creators := ce.sender :: cc.additionalCreators
-            if new.users.any (fun kv => creators.contains kv.1) then failErr else .ok ()
+      match a.createEvent with
+      | none => .error (.panic "eventauth.go:checkPowerLevelEventV3 createEvent.Content() on nil create event")
+      | some ce =>
+        match decodeCreateContent ce.content with
+        | none => notAllowed
+        | some cc =>
+          let creators := ce.sender :: cc.additionalCreators
+          -- creators are not listed in the power levels: they outrank every level (548eba1)
+          let senderLevel := if creators.contains e.sender then creatorPowerLevel else old.userLevel e.sender
+          if !checkNotificationLevels senderLevel old new then notAllowed
+          else if new.users.any (fun kv => creators.contains kv.1) then failErr else .ok ()
     else .error (.unmodelled "unknown checkPowerLevelEvent")
 
 /-- `powerLevelsEventAllowed` -/
@@ -758,7 +805,10 @@ def MembershipAllower.allowedSelf (m : MembershipAllower) : R Unit := do
     if jr == b!"public" then return ()
     notAllowed
   else if new == b!"leave" then
-    if old == b!"join" || old == b!"invite" || old == b!"knock" then return () else notAllowed
+    if old == b!"join" || old == b!"invite" then return ()
+    -- a knock can be cancelled in the versions that have knocking: the version's check for a user outside a `knock` room (dbee289)
+    else if old == b!"knock" then checkKnockingAllowed m.row b!"knock" old
+    else notAllowed
   else notAllowed
 
 /-- `membershipAllowedOther` -/
@@ -831,14 +881,26 @@ def Ctx.memberEventAllowed (a : Ctx) (e : Event) (sig3pid : Bool) : R Unit := do
         if tpKeys > 0 && hasEdSig && sig3pid then return () else notAllowed
     if target == e.sender then m.allowedSelf else m.allowedOther
 
-/-- `allowerContext.allowed` -/
-def Ctx.allowed (a : Ctx) (e : Event) (sig3pid : Bool := false) : R Unit :=
-  if e.type == b!"m.room.create" then a.createEventAllowed e
-  else if e.type == b!"m.room.aliases" then a.aliasEventAllowed e
-  else if e.type == b!"m.room.member" then a.memberEventAllowed e sig3pid
+/-- the second `switch` of `allowerContext.allowed`: the events that are checked against the power levels -/
+def Ctx.dispatchPL (a : Ctx) (e : Event) (sig3pid : Bool := false) : R Unit :=
+  if e.type == b!"m.room.member" then a.memberEventAllowed e sig3pid
   else if e.type == b!"m.room.power_levels" then a.powerLevelsEventAllowed e
   else if e.type == b!"m.room.redaction" then a.redactEventAllowed e
   else a.defaultEventAllowed e
+
+/-- the dispatch by event type inside `allowerContext.allowed`: m.room.create and m.room.aliases first; for every other
+    event a power-levels event that could not be loaded authorises nothing (`powerLevelsErr`, d1e42dd) -/
+def Ctx.dispatch (a : Ctx) (e : Event) (sig3pid : Bool := false) : R Unit :=
+  if e.type == b!"m.room.create" then a.createEventAllowed e
+  else if e.type == b!"m.room.aliases" then a.aliasEventAllowed e
+  else match a.plErr with
+    | some v => .error v
+    | none => a.dispatchPL e sig3pid
+
+/-- `allowerContext.allowed`: the provider must be `Valid()` (all auth events from one room; 32272dd: the reused checker
+    asks too), then the dispatch by type -/
+def Ctx.allowed (a : Ctx) (e : Event) (sig3pid : Bool := false) : R Unit :=
+  if !a.provider.valid then notAllowed else a.dispatch e sig3pid
 
 /-- `Allowed(event, authEvents, standardQuerier)` -/
 def allowedFresh (e : Event) (p : Provider) (sig3pid : Bool := false) : Verdict :=
@@ -849,7 +911,9 @@ def allowedFresh (e : Event) (p : Provider) (sig3pid : Bool := false) : Verdict 
       | .ok () => .ok
       | .error v => v
 
-/-- what a context freshly created for provider `p` answers (no `Valid()` gate: the reusable checker has none) -/
+/-- what a context freshly created for provider `p` answers: `newAllowerContext(p).allowed(e)` without the entry
+    point's own `Valid()` test.  Since 32272dd the checker makes that test itself, so this is equal to `allowedFresh`
+    (`V.C09.allowedFresh_eq_noValid`); the name is kept for the state-resolution model, which calls the checker this way. -/
 def allowedFreshNoValid (e : Event) (p : Provider) (sig3pid : Bool := false) : Verdict :=
   match (({} : Ctx).update p) with
   | .error v => v
